@@ -236,4 +236,55 @@ theorem sessionMod_refines (file : Bytes) (ops : List Op) (o : Outcome) (f : Fil
   | panic i => simp [hr] at h
   | badOp => simp [hr] at h
 
+/-! ### executable checks of the hypotheses (for concrete instances) -/
+
+/-- `StartOK` as a Boolean test -/
+def startOKb (f : File) : Bool :=
+  f.godebug.all (fun g => !g.key.isEmpty) && f.require.all (fun r => !r.mod.path.isEmpty) &&
+  f.exclude.all (fun x => !x.mod.path.isEmpty) && f.replace.all (fun r => !r.old.path.isEmpty) &&
+  f.retract.all (fun r => !r.interval.low.isEmpty || !r.interval.high.isEmpty) && f.tool.all (fun t => !t.path.isEmpty) &&
+  decide (dupIds f).Nodup && (dupIds f).all (fun i => f.syn.allLines.any (fun l => l.id == i))
+
+theorem isEmpty_false_ne {p : Bytes} (h : (!p.isEmpty) = true) : p ≠ [] := by
+  intro e; subst e; cases h
+
+theorem startOKb_sound (f : File) (h : startOKb f = true) : StartOK f := by
+  unfold startOKb at h
+  simp only [Bool.and_eq_true, List.all_eq_true, decide_eq_true_eq, List.any_eq_true] at h
+  rcases h with ⟨⟨⟨⟨⟨⟨⟨h1, h2⟩, h3⟩, h4⟩, h5⟩, h6⟩, h7⟩, h8⟩
+  refine ⟨⟨fun g hg => isEmpty_false_ne (h1 g hg), fun g hg => isEmpty_false_ne (h2 g hg),
+    fun g hg => isEmpty_false_ne (h3 g hg), fun g hg => isEmpty_false_ne (h4 g hg), ?_,
+    fun g hg => isEmpty_false_ne (h6 g hg)⟩, h7, ?_⟩
+  · intro r hr
+    have := h5 r hr
+    simp only [Bool.or_eq_true] at this
+    rcases this with h | h
+    · exact Or.inl (isEmpty_false_ne h)
+    · exact Or.inr (isEmpty_false_ne h)
+  · intro i hi
+    rcases h8 i hi with ⟨l, hl, he⟩
+    exact ⟨l, hl, eq_of_beq he⟩
+
+/-- `ValidArgs` as a Boolean test -/
+def validArgsB : Op → Bool
+  | .addGodebug k _ => !k.isEmpty
+  | .addRequire p _ => !p.isEmpty
+  | .addNewRequire p _ _ => !p.isEmpty
+  | .setRequire w _ => decide (w.Pairwise (fun a b => a.path ≠ b.path)) && w.all (fun x => !x.path.isEmpty)
+  | .setRequireSeparateIndirect w _ => decide (w.Pairwise (fun a b => a.path ≠ b.path)) && w.all (fun x => !x.path.isEmpty)
+  | .addExclude p _ => !p.isEmpty
+  | .addReplace op _ _ _ => !op.isEmpty
+  | .addTool p => !p.isEmpty
+  | .addUse d _ => !d.isEmpty
+  | .addNewUse d _ => !d.isEmpty
+  | .setUse w _ => decide ((w.map Prod.fst).Pairwise (· ≠ ·)) && w.all (fun x => !x.1.isEmpty)
+  | _ => true
+
+theorem validArgsB_sound (op : Op) (h : validArgsB op = true) : ValidArgs op := by
+  cases op <;> simp only [validArgsB, ValidArgs, Bool.and_eq_true, decide_eq_true_eq, List.all_eq_true] at h ⊢ <;>
+    first
+      | trivial
+      | exact isEmpty_false_ne h
+      | exact ⟨h.1, fun w hw => isEmpty_false_ne (h.2 w hw)⟩
+
 end ModVerif.Modfile.Edit
